@@ -19,9 +19,11 @@ RULES = {
     'R4': 'cleanup: after the ring exists every path closes it and frees the record buffer; the descriptor is closed on every path; create_from_file closes the ring on every failure after qb_rb_open and opens it with CREATE (so close unlinks the files)',
     'R5': 'round trip: qb_rb_write_to_file and qb_rb_create_from_file agree on field order, sizes and the hash formula; the blackbox record written by _blackbox_vlogger is consumed field by field in the same order and sizes',
     'R6': 'the decoder stays inside the record: the printer gives it the number of bytes left in the record (entailed <= bytes_read), and in the decoder every fixed-width argument read lies below that bound (data cursor + width <= bound, by abstract interpretation over the cursor), every string argument is used only behind a terminator search limited to the bytes left, and the cursor never passes the bound',
+    'R8': 'a stored string argument is handed to snprintf with a plain s directive: every case of the decoder that appends a length-modifier character to the rebuilt directive (the cases that raise a length flag) first records where it starts, and the string case rewinds the directive to that position before the string is printed ("%ls" would make printf read the stored bytes as wide characters, past the record)',
+    'R9': 'printing a dump uses a ring of its own: the name qb_rb_create_from_file gives to qb_rb_open is not a constant (it contains the process id), so that two printers at the same time do not meet in each other\'s files and leave one behind',
     'R7': 'the reader takes what the writer can store: the largest message length the printer accepts and the text buffer it decodes into are not below the largest max_line_length a target can be given (C13.R4), and the record buffer is not of a constant size (the function name in a record has no bound) but measured on the ring just opened',
 }
-FLOORS = {'R1': 9, 'R2': 12, 'R3': 2, 'R4': 6, 'R5': 5, 'R6': 12, 'R7': 3}
+FLOORS = {'R1': 9, 'R2': 12, 'R3': 2, 'R4': 6, 'R5': 5, 'R6': 12, 'R7': 3, 'R8': 4, 'R9': 1}
 
 
 def run(ctx):
@@ -32,6 +34,8 @@ def run(ctx):
     r5(ctx)
     r6(ctx)
     r7(ctx)
+    r8(ctx)
+    r9(ctx)
 
 
 def r1(ctx):
@@ -614,3 +618,97 @@ def r7(ctx):
               'the record capacity comes from %s' % ', '.join(sorted(estr(s) for s in measured)),
               'the record capacity %s is a constant (%s): a record with a longer function name or message ends the print with ENOBUFS' %
               (estr(cap), ', '.join(sorted(estr(s) for s in consts))))
+
+
+def r8(ctx):
+    prog = ctx.prog
+    d, _names = c14.decoder_family(prog)
+    sw = c14._switch_block(d)
+    tg = c14._case_targets(d, sw)
+    loops = d.natural_loops()
+    barrier = {h for h in loops if sw.id in loops[h]} | {sw.id}
+    arrs = [ev.d['var'] for ev in d.events('DECL') if prog.type_info(ev.d.get('ty', '')).get('kind') == 'array']
+    if len(arrs) != 1 or 's' not in tg:
+        raise AnalysisBroken('%s: directive buffer / s case not found' % d.name)
+    fbuf = arrs[0]
+    # the fmt cursor: the variable that indexes fbuf in stores
+    curs = set()
+    for ev in d.events('STORE'):
+        l = unwrap(ev.lhs)
+        if l.get('k') == 'idx' and estr(unwrap(l['b'])) == fbuf:
+            for n in walk(l['i']):
+                if n.get('k') == 'var':
+                    curs.add(n['n'])
+    if len(curs) != 1:
+        raise AnalysisBroken('%s: %s is indexed by %s' % (d.name, fbuf, sorted(curs)))
+    cur = curs.pop()
+    # length-modifier cases: they go back into the switch (modifier role) and set a local flag to a non-zero constant
+    modcases = {}
+    for c, start in tg.items():
+        if c.isdigit() or c in '.*#- +\'I':
+            continue
+        visits, _t = abstract_run(d, {}, tracked=set(), start=start, barrier=barrier)
+        raises = [ev for (ev, _e) in visits if ev.kind == 'STORE' and unwrap(ev.lhs).get('k') == 'var' and cval(unwrap(ev.rhs)) not in (0, None) and ev.d['op'] == '=']
+        appends = [ev for (ev, _e) in visits if ev.kind == 'STORE' and unwrap(ev.lhs).get('k') == 'idx' and estr(unwrap(unwrap(ev.lhs)['b'])) == fbuf]
+        ends = any(True for t in _t if t[0] == 'barrier')
+        if raises and appends and not any(ev.kind == 'CALL' and ev.callee in ('snprintf', 'memcpy') for (ev, _e) in visits):
+            modcases[c] = (start, visits, appends)
+    if len(modcases) < 2:
+        raise AnalysisBroken('%s: length-modifier cases found: %s' % (d.name, sorted(modcases)))
+    # the string use
+    suse = None
+    visits_s, _t = abstract_run(d, {}, tracked=set(), start=tg['s'], barrier=barrier)
+    for (ev, _e) in visits_s:
+        if ev.kind in ('STORE', 'DECL', 'CALL'):
+            root = ev.d.get('e') if ev.kind == 'CALL' else (ev.rhs if ev.kind == 'STORE' else ev.d.get('init'))
+            for n in walk(root or {}):
+                if n.get('k') == 'call' and callee_of(n) == 'snprintf' and any(unwrap(a).get('k') == 'addr' and estr(unwrap(unwrap(unwrap(a)['e']).get('b', {}))) == d.params[2]['n'] for a in n['args'][3:]):
+                    suse = ev
+    if suse is None:
+        raise AnalysisBroken('%s: the snprintf of the stored string was not found' % d.name)
+    # the rewind: a plain assignment to the fmt cursor from a local M, in the s case before the use
+    rew = [ev for (ev, _e) in visits_s if ev.kind == 'STORE' and estr(ev.lhs) == cur and ev.d['op'] == '=' and unwrap(ev.rhs).get('k') == 'var' and d.may_follow(ev, suse)]
+    if not rew:
+        ctx.check('R8', 'string-printed-with-a-plain-directive', False, suse, '',
+                  'the decoder hands the stored string to snprintf with whatever length modifier the format had: "%ls" (a damaged dump, or a message really logged '
+                  'that way) makes printf read the bytes as wide characters and search for a wide terminator four bytes at a time, past the end of the record buffer')
+        return
+    M = unwrap(rew[0].rhs)['n']
+
+    def no_modifier(a, fb):
+        # edges that skip the rewind: nothing was recorded (M <= 0) or it lies at/behind the cursor
+        l = unwrap(a.l)
+        return l.get('k') == 'var' and l['n'] == M and ((a.op in ('<=', '==') and a.rc == 0) or (a.op in ('>=', '>') and a.rs == cur))
+    # from the case label the use is reached either through the rewind or over an edge that says no modifier was recorded
+    hits, _e, _n = d.search(('block', tg['s']), goal=lambda ev: ev is suse, stop=lambda ev: any(ev is r for r in rew),
+                            edge_filter=lambda fb, t, lab: not (fb.cond is not None and lab in (True, False) and cond_cut_any(fb.cond, lab, no_modifier)))
+    ctx.check('R8', 'string-printed-with-a-plain-directive', not hits, suse, 'the directive is rewound to the start of its length modifier before the string is printed',
+              'the string can be printed with the length modifier still in the directive')
+    for c, (start, visits, appends) in sorted(modcases.items()):
+        recs = [ev for (ev, _e) in visits if ev.kind == 'STORE' and estr(ev.lhs) == M and estr(unwrap(ev.rhs)) == cur]
+        ok = bool(recs) and all(any(d.ev_dominates(r, a) or r.blk != a.blk and d.may_follow(r, a) for r in recs) for a in appends[:1])
+        ctx.check('R8', 'modifier-start-recorded:%s' % c, ok, appends[0], 'the %s case records where the length modifier starts before appending it' % c,
+                  'the %s case appends a length modifier without recording where it starts: "%%%ss" is printed with the modifier' % (c, c))
+    # reset per directive: covered by C14.R4 (no carried state)
+
+
+def cond_cut_any(cond, lab, pred):
+    from engine.qb import cond_cut
+    return cond_cut(cond, lab, lambda a: pred(a, None))
+
+
+def r9(ctx):
+    prog = ctx.prog
+    f = prog.fn('qb_rb_create_from_file')
+    ops = [ev for ev in f.events() if (ev.kind == 'STORE' and ev.rhs is not None and callee_of(unwrap(ev.rhs)) == 'qb_rb_open')]
+    if len(ops) != 1:
+        raise AnalysisBroken('qb_rb_create_from_file: qb_rb_open sites = %d' % len(ops))
+    name = unwrap(unwrap(ops[0].rhs)['args'][0])
+    const = name.get('k') in ('str', 'strlit') or (cval(name) is not None) or estr(name).startswith('"')
+    uniq = False
+    if not const and name.get('k') == 'var':
+        fm = [ev for ev in f.calls('snprintf', 'sprintf') if estr(unwrap(ev.args[0])) == name['n'] and f.ev_dominates(ev, ops[0])]
+        uniq = any(any(n.get('k') == 'call' and callee_of(n) in ('getpid', 'mkstemp', 'random', 'rand') for a in ev.args for n in walk(a)) for ev in fm)
+    ctx.check('R9', 'dump-ring-name-is-not-shared', uniq, ops[0], 'the ring for printing a dump is named after the process',
+              'every print of a dump builds its ring under the same name (%s): two printers at the same time meet in each other\'s files - one header goes to the '
+              'socket directory and is never unlinked, or the loser leaves its header in /dev/shm' % estr(name))
